@@ -23,6 +23,12 @@ POL = {  # phase-matching type -> (pump, signal, idler), from the names e -> e o
 IMPORTS = ("From SpdVerif Require Import Base.Rx Base.Vec3 Gen.Idler Model.Idler Proofs.C03_base Proofs.C03_idler Proofs.C03_tac.\n")
 
 
+def unknown_failing_input(ctx):
+    """a violation with a concrete failing input that is NOT a listed known finding (known findings must not switch the search off)"""
+    fs = load_findings()
+    return any(v["found_input"] and not match_finding(v, fs, ctx.prop) for v in ctx.violations)
+
+
 def fr(h):
     return frac_of_hex(h)
 
@@ -128,6 +134,11 @@ def oracle(ctx, obs):
         ctx.count(f"theta_s:{cls}")
         ctx.count("poling:" + ("off" if not pp["on"] else ("+" if pp["positive"] else "-")))
         ctx.count("history:" + i.get("history", "none"))
+        tilted = "pump_theta0" in i and (fl(i["pump_theta0"]) != 0 or fl(i["pump_phi0"]) != 0)
+        ctx.count("pump built from a tilted beam" if tilted else "pump built from an on-axis beam")
+        if (fl(pump["phi"]), fl(pump["theta"])) != (0.0, 0.0) or [fl(x) for x in pump["dir"]] != [0.0, 0.0, 1.0]:
+            ctx.violation("S5", f"PumpBeam::from left the pump off the z axis: phi = {fl(pump['phi'])!r}, theta = {fl(pump['theta'])!r}, "
+                          f"direction = {[fl(x) for x in pump['dir']]}", {"kind": "pump_axis"}, d)
         if o.get("same_as_direct") is False:
             ctx.violation("S5", f"a signal beam re-aimed through the setters ({i.get('history')}) differs from a beam constructed with the same final angles",
                           {"kind": "beam_history", "history": i.get("history")}, d)
@@ -171,7 +182,20 @@ def oracle(ctx, obs):
         allnum = [sig["n"], pump["n"], ib["n"], sig["n_index_along"], pump["n_index_along"], ib["n_index_along"], ib["theta"]] + \
             dk["center"] + dk["off"]["dk"] + [dk["off"]["ns"], dk["off"]["ni"]] + ib["dir"] + sig["dir"]
         if not finite(*allnum):
-            ctx.count("skipped:non-finite index (wavelength outside the Sellmeier range)")
+            idx = [sig["n"], pump["n"], ib["n"], sig["n_index_along"], pump["n_index_along"], ib["n_index_along"], dk["off"]["ns"], dk["off"]["ni"]]
+            if finite(*idx) and all(fl(x) > 0 for x in idx) and not finite(ib["theta"], *ib["dir"]):
+                # all indices are fine but the idler angle is NaN: sqrt of a negative arg or asin of |val| > 1
+                ksn = kvec(sig, sig["n_index_along"], sig["omega"])
+                kpn0 = kvec(pump, pump["n_index_along"], dk["omega_p"])
+                qz = kpn0[2] - ksn[2] - fr(pp["k_eff"])
+                qv = [kpn0[0] - ksn[0], kpn0[1] - ksn[1], qz]
+                fwd = float(qz) > 1e-6 * norm(qv)
+                ctx.count("idler angle NaN with finite indices: closing vector " + ("forward" if fwd else "not forward"))
+                if fwd and not i["counter_propagation"]:
+                    ctx.violation("S5", f"optimum idler has a NaN polar angle although all indices are finite and the closing vector points forward "
+                                  f"({i['crystal']} {i['pm_type']})", {"kind": "idler_nan"}, d)
+            else:
+                ctx.count("skipped:non-finite index (wavelength outside the Sellmeier range)")
             continue
         if min(fl(sig["n"]), fl(pump["n"]), fl(ib["n"]), fl(dk["off"]["ns"]), fl(dk["off"]["ni"])) <= 0:
             ctx.count("skipped:index_along returned 0 (imaginary index, property C02)")
@@ -208,6 +232,32 @@ def oracle(ctx, obs):
                 (ib["theta"], ib["phi"], ib["lambda"], ib["pol"]):
             ctx.violation("S5", "SPDC::assign_optimum_idler does not install the optimum idler's angles / wavelength / polarization",
                           {"kind": "assign_optimum_idler"}, d)
+        # waist installed by SPDC::assign_optimum_idler (the harness gave the SPDC's previous idler a waist of 33 um)
+        awx = fl(dk["assigned_wx"])
+        if dk["assign_ok"] and dk["assigned_wx"] != sig["wx"]:
+            kept = awx == 33e-6
+            ctx.violation("S5", f"SPDC::assign_optimum_idler installs an idler of waist {awx!r} m, not the signal's waist {fl(sig['wx'])!r} m"
+                          + (" (it keeps the waist of the idler it replaces)" if kept else ""),
+                          {"kind": "waist", "route": "assign_optimum_idler", "kept_previous": kept},
+                          dict(d, call="spdc.idler.set_waist(33 um); spdc.assign_optimum_idler()", observed_waist_m=awx, expected_waist_m=fl(sig["wx"])))
+        # configuration route "idler": "auto"
+        cfg = o.get("config")
+        if cfg:
+            ctx.count("config idler auto: " + cfg["class"])
+            if cfg["class"] == "ok":
+                if not cfg["idler_is_try_new_optimum"]:
+                    ctx.violation("S5", "SPDCConfig with \"idler\": \"auto\" installs an idler that is not try_new_optimum of its own signal / pump / crystal / poling",
+                                  {"kind": "config_idler"}, d)
+                if cfg["idler_wx"] != cfg["signal_wx"]:
+                    ctx.violation("S5", "config \"idler\": \"auto\": idler waist differs from the signal's", {"kind": "waist", "route": "config"}, d)
+                lsc, lpc, lic = fr(cfg["signal_lambda"]), fr(cfg["pump_lambda"]), fr(cfg["idler_lambda"])
+                if abs(1 / lic - (1 / lpc - 1 / lsc)) > Fraction(1, 10**11) / lic:
+                    ctx.violation("S5", "config \"idler\": \"auto\": energy is not conserved", {"kind": "energy", "route": "config"}, d)
+                dph = (fl(cfg["idler_phi"]) - fl(cfg["signal_phi"]) - math.pi) / (2 * math.pi)
+                if abs(dph - round(dph)) > 1e-12 or cfg["idler_pol"] != POL[i["pm_type"]][2]:
+                    ctx.violation("S5", "config \"idler\": \"auto\": azimuth / polarization of the idler", {"kind": "config_idler_fields"}, d)
+            elif fl(i["signal_wavelength"]) > fl(i["pump_wavelength"]) * (1 + 1e-9):
+                ctx.violation("S5", f"SPDCConfig with \"idler\": \"auto\" fails: {cfg.get('error')}", {"kind": "config_idler_error"}, d)
         # ---- momentum: closing vector forward -> idler direction parallel to it; residual mismatch parallel to the idler
         if i["counter_propagation"]:
             continue
@@ -361,12 +411,12 @@ def run(ctx):
         correspondence(ctx, cases[:55] if ctx.tier == "quick" else cases[:330])
     else:
         ctx.note("correspondence cases skipped: generated model did not compile")
-    if (not proved or ctx.case_failures) and not any(v["found_input"] for v in ctx.violations):
+    if (not proved or ctx.case_failures) and not unknown_failing_input(ctx):
         ctx.log("S5 deep search for a failing input (proof obligations / correspondence are broken)")
         for k in range(3):
             obs2 = run_harness(ctx, binp, ["c03", ctx.seed + 1000 + k, 2200])
             oracle(ctx, obs2)
-            if any(v["found_input"] for v in ctx.violations):
+            if unknown_failing_input(ctx):
                 break
     ctx.cov["rule"] = ("case i: crystal = i mod 11, phase-matching type = (i div 11) mod 5 (all 55 combinations every 55 cases); random crystal "
                        "orientation (theta in [0, pi/2] incl. the ends, phi in [0, 2 pi)), temperature, length; pump wavelength log-uniform in the lower "
